@@ -5,6 +5,8 @@
 #include <stdarg.h>
 #include <unistd.h>
 #include <algorithm>
+#include <memory>
+#include "../ref/prims.h"
 
 const char *const op_names[OP_NKINDS] = { "SUBMIT", "GET_COMPLETED", "FLUSH", "FLUSH_ALL", "QUEUE_SIZE", "GET_NEXT",
                                           "BURST", "FLUSH_BURST", "REINIT", "REATTACH", "MISUSE", "MARK",
@@ -194,6 +196,8 @@ struct InFlight {
         std::vector<int> errs;
         bool burst = false;
         int op_index = 0;
+        int stream = -1;          // SGL stream segment (buffers belong to the stream)
+        bool stream_complete = false;
 };
 
 struct Task {
@@ -209,7 +213,9 @@ struct Task {
         IMB_JOB *slots[IMB_MAX_BURST_SIZE + 8];
 };
 
+struct StreamState;
 struct Ctx {
+        std::vector<StreamState *> streams;
         const Plan *plan;
         const RunOpts *opts;
         RunResult *res;
@@ -321,8 +327,9 @@ check_errno(Ctx &c, Task &t, const char *call, const std::vector<int> &acceptabl
 const std::vector<int> k_ok = { 0 };
 
 void
-record_state(Ctx &c, Task &t, int opkind)
+record_state(Ctx &c, Task &t, const Op &op)
 {
+        const int opkind = op.kind;
         uint32_t n = (uint32_t) t.fifo.size();
         uint32_t bucket = n == 0 ? 0 : n == 1 ? 1 : n < 16 ? 2 : n < 128 ? 3 : n < 255 ? 4 : 5;
         uint32_t head = 0;
@@ -343,6 +350,15 @@ record_state(Ctx &c, Task &t, int opkind)
                 }
         }
         uint64_t st = mix64(mix64(bucket * 16 + head * 4 + t.api * 2 + (t.wrapped ? 1 : 0), suites), (uint64_t) opkind);
+        if ((opkind == OP_SYNC_BURST || opkind == OP_DIRECT) && !op.jobs.empty()) {
+                // entry-point ops: (entry point, suite, buffer-count bucket, nocheck) is what distinguishes cases
+                size_t n = op.jobs.size();
+                uint64_t nb = n == 1 ? 0 : n < 4 ? 1 : n == 4 ? 2 : n < 8 ? 3 : n == 8 ? 4 : n < 16 ? 5 : n == 16 ? 6 : n < 128 ? 7 : 8;
+                st = mix64(st, ((uint64_t) op.a << 32) | ((uint64_t) op.jobs[0].cipher << 24) | ((uint64_t) op.jobs[0].hash << 16) |
+                                       ((uint64_t) op.jobs[0].key_len << 8) | (nb << 4) | (uint64_t) op.nocheck * 2 | (op.jobs[0].dir & 1));
+        }
+        if (opkind == OP_SGL_SEG)
+                st = mix64(st, (uint64_t) op.a);
         c.res->states.insert(st);
 }
 
@@ -519,6 +535,9 @@ check_descriptor(Ctx &c, const InFlight &f)
         }
 }
 
+void sgl_stream_done(Ctx &c, Task &t, int stream);
+void sgl_oneshot_check(Ctx &c, Task &t, const MatJob &mj, int status);
+
 void
 handback(Ctx &c, Task &t, IMB_JOB *r, const char *via)
 {
@@ -581,6 +600,17 @@ handback(Ctx &c, Task &t, IMB_JOB *r, const char *via)
                 }
         }
         check_descriptor(c, *f);
+        if (f->stream >= 0) {
+                // SGL segment: buffers belong to the stream; the stream is judged at its COMPLETE segment
+                if (completed && f->stream_complete)
+                        sgl_stream_done(c, t, f->stream);
+                evlog(c, t, 0x4842, (uint64_t) f->id * 8 + (uint64_t) st, 0, "  handback via %s: sgl segment job #%d slot %d status %d", via,
+                      f->id, slot_index(t, r), st);
+                c.cur_spec = nullptr;
+                c.cur_inf = nullptr;
+                delete f;
+                return;
+        }
 
         if (c.plan->oracles & (OR_MEM | OR_REJECT)) {
                 if ((c.plan->oracles & OR_MEM) || !completed) {
@@ -609,6 +639,9 @@ handback(Ctx &c, Task &t, IMB_JOB *r, const char *via)
                                         spec_str(f->mj.spec),
                                 std::string("alg=") + cipher_name(f->mj.spec.cipher) + "/" + hash_name(f->mj.spec.hash));
         }
+        if (completed && (c.plan->oracles & OR_SOLO) && f->mj.spec.sgl_state == IMB_SGL_ALL &&
+            (f->mj.spec.cipher == IMB_CIPHER_GCM_SGL || f->mj.spec.cipher == IMB_CIPHER_CHACHA20_POLY1305_SGL))
+                sgl_oneshot_check(c, t, f->mj, st);
         if (completed && (c.plan->oracles & OR_XVAR)) {
                 // same job alone on every other variant
                 for (int k = 0; k < 7; k++) {
@@ -1175,8 +1208,18 @@ op_misuse(Ctx &c, Task &t, int kind)
                 violate(c, "fifo.misuse_changed_queue", std::string(what) + " changed the queue");
 }
 
-} // namespace
+#include "ops_ext.inc"
+#include "ops_keyprep.inc"
 
+void
+sgl_stream_done(Ctx &c, Task &t, int stream)
+{
+        if ((size_t) stream >= c.streams.size() || !c.streams[(size_t) stream])
+                return;
+        sgl_final_check(c, t, *c.streams[(size_t) stream]);
+}
+
+} // namespace
 
 RunResult
 run_plan(const Plan &p, const RunOpts &o)
@@ -1239,7 +1282,7 @@ run_plan(const Plan &p, const RunOpts &o)
                         Task &t = c.tasks[op.task];
                         c.cur_task = &t;
                         ctr(c, CT_OPS);
-                        record_state(c, t, op.kind);
+                        record_state(c, t, op);
                         switch (op.kind) {
                         case OP_SUBMIT: op_submit(c, t, op); break;
                         case OP_GET_COMPLETED: op_get_completed(c, t); break;
@@ -1253,6 +1296,10 @@ run_plan(const Plan &p, const RunOpts &o)
                         case OP_REATTACH: op_reattach(c, t, op.a); break;
                         case OP_MISUSE: op_misuse(c, t, op.a); break;
                         case OP_MARK: c.after_mark = true; break;
+                        case OP_SYNC_BURST: op_sync_burst(c, t, op); break;
+                        case OP_DIRECT: op_direct(c, t, op); break;
+                        case OP_SGL_SEG: op_sgl_seg(c, t, op); break;
+                        case OP_KEYPREP: op_keyprep(c, t, op); break;
                         default: ctr(c, CT_DEGRADED_OPS); break;
                         }
                         if (res.viols.size() >= 8)
@@ -1299,6 +1346,11 @@ run_plan(const Plan &p, const RunOpts &o)
                 res.task_hash[i] = c.tasks[i].hash;
                 drop_all(c, c.tasks[i]);
         }
+        for (auto *st : c.streams)
+                if (st) {
+                        mat_release(st->mj);
+                        delete st;
+                }
         res.ctr[CT_CALLS] = g_calls_total - calls0;
         g_ctx = nullptr;
         g_cc_violation = nullptr;
